@@ -289,6 +289,7 @@ func eventsAny(evs []Event) []any {
 // the rest is validated again.
 func validateResults(c *core.Ctx, rs []*Result, report func(r *Result, inv string, ev Event)) error {
 	const maxEvents = 30000
+	rejected := 0
 	for i := 0; i < len(rs); {
 		var batch []*Result
 		n := 0
@@ -324,6 +325,12 @@ func validateResults(c *core.Ctx, rs []*Result, report func(r *Result, inv strin
 			bad := owner[k]
 			report(batch[bad], tf.Invariant, evs[k])
 			batch = append(batch[:bad], batch[bad+1:]...)
+			if rejected++; rejected >= 8 {
+				// enough rejections to report; the remaining scenarios of this batch stay unvalidated
+				c.Traces(-len(batch))
+				c.Extra("trace_validation_stopped_after_rejections", rejected)
+				return nil
+			}
 		}
 	}
 	return nil
@@ -469,6 +476,17 @@ func run(c *core.Ctx) error {
 			toJudge = append(toJudge, r)
 		}
 	}
+	// ---------------- 5. race detector (exploration), concurrently with the (single-threaded) trace validation
+	var raceWG sync.WaitGroup
+	raceWG.Add(1)
+	go func() {
+		defer raceWG.Done()
+		if !devStress {
+			runRace(c)
+		}
+	}()
+	defer raceWG.Wait()
+
 	if len(toJudge) == 0 && len(a.hangs) == 0 {
 		return fmt.Errorf("no scenario produced a trace: %v", a.machine)
 	}
@@ -505,10 +523,8 @@ func run(c *core.Ctx) error {
 	}
 	c.Logf("trace validation done at %.1fs", time.Since(t0).Seconds())
 
-	// ---------------- 5. race detector (exploration)
-	if !devStress {
-		runRace(c)
-	} else {
+	raceWG.Wait()
+	if devStress {
 		c.Inconclusive("VERIF_C11_DEV=stress: model, hazards and race detector skipped (development run)")
 	}
 
